@@ -401,7 +401,12 @@ class AssignBlock(object):
             if dst == src:
                 continue
             new_src = simplifier(src)
-            new_dst = simplifier(dst)
+            if dst.is_mem():
+                # Simplify the pointer only: the simplification of the
+                # ExprMem itself may not be assignable (@[c?(a,b)])
+                new_dst = m2_expr.ExprMem(simplifier(dst.ptr), dst.size)
+            else:
+                new_dst = simplifier(dst)
             new_assignblk[new_dst] = new_src
         return AssignBlock(irs=new_assignblk, instr=self.instr)
 
